@@ -19,6 +19,7 @@
      tasks    asyncio.all_tasks() minus harness tasks minus the connector's shared lookup task
      timers   pending timers minus harness watchdog minus connector keep-alive cleanup
      dnsw     futures parked on the shared DNS lookup        cancelreq  caller cancelled v while pending
+     interim  a 100 Continue was delivered to the victim
      fault    the driver injected a peer fault (random driver only)
    cfg: limit, thr (ceil threshold), to[K] (0 = not configured).
 
@@ -28,6 +29,8 @@
      CancelPropagates   caller cancel not ending in CancelledError, or CancelledError without cancel
      CancelSwallowedNestedTimer   the named deviation: total timer and caller cancel both hit the
                         victim while it awaits the response head (nested TimerContext) -> TimeoutError
+     ReadTimerNotStartedAfterInterim   the named deviation: only sock_read is overdue, an interim
+                        100 Continue was delivered, the request is written, no timer is pending
      ReadTimerRearmedAfterEof     the named deviation: the victim succeeded, its connection is back
                         in the pool and the protocol's sock_read timer is (still) armed
      NoResidue          first idle observation after the victim ended: transport / socket open,
@@ -73,7 +76,9 @@ Clause(p, e, c, rd) ==
         bb == BoundedBad(o, c)
         vEndsNow == p.st["v"] = "pending" /\ Ended(o.st["v"])
     IN
-    IF bb # {} THEN <<"Bounded", Kinds[CHOOSE i \in bb : TRUE]>>
+    IF bb = {4} /\ o.interim /\ ~o.gotresp /\ o.timers = <<>>
+       THEN <<"ReadTimerNotStartedAfterInterim", "no sock_read timer after 100 Continue + request body">>
+    ELSE IF bb # {} THEN <<"Bounded", Kinds[CHOOSE i \in bb : TRUE]>>
     ELSE IF vEndsNow /\ o.st["v"] = "timeout" /\ ~o.cancelreq
             /\ (MinTo(c) = 0 \/ o.tend["v"] < p.refs["total"] + MinTo(c))
          THEN <<"EarlyTimeout", "">>
